@@ -80,7 +80,7 @@ func (scriptedPartitioner) Partition(msg *sarama.ProducerMessage, n int32) (int3
 type failEncoder struct{ n int }
 
 func (f failEncoder) Encode() ([]byte, error) { return nil, sarama.VerifProdError(1011) }
-func (f failEncoder) Length() int              { return f.n }
+func (f failEncoder) Length() int             { return f.n }
 
 // IcCall is one interceptor invocation as seen by the interceptor itself.
 type IcCall struct {
@@ -127,12 +127,12 @@ func (ic *interceptor) OnSend(msg *sarama.ProducerMessage) {
 
 // Outcome is one terminal event the application received.
 type Outcome struct {
-	ID        int64 `json:"id"`
-	Success   bool  `json:"success"`
-	Err       int   `json:"err"`
-	Partition int32 `json:"partition"`
-	Offset    int64 `json:"offset"`
-	AfterClose bool `json:"afterclose,omitempty"`
+	ID         int64 `json:"id"`
+	Success    bool  `json:"success"`
+	Err        int   `json:"err"`
+	Partition  int32 `json:"partition"`
+	Offset     int64 `json:"offset"`
+	AfterClose bool  `json:"afterclose,omitempty"`
 }
 
 // Result is everything observed in one run.
@@ -295,7 +295,7 @@ func Run(sc *Scenario) *Result {
 				select {
 				case <-gates[w-1].Reached:
 					res.HeldReached[w-1] = true
-				case <-time.After(300 * time.Millisecond):
+				case <-time.After(60 * time.Millisecond):
 				}
 			} else {
 				time.Sleep(4 * time.Millisecond)
@@ -376,10 +376,23 @@ func Run(sc *Scenario) *Result {
 			close(done)
 		}()
 	}
-	select {
-	case <-done:
-		res.CloseOK, res.ChansClosed = true, true
-	case <-time.After(closeBound):
+	deadline := time.Now().Add(closeBound)
+wait:
+	for {
+		select {
+		case <-done:
+			res.CloseOK, res.ChansClosed = true, true
+			break wait
+		case <-time.After(50 * time.Millisecond):
+			if time.Now().After(deadline) {
+				break wait
+			}
+			// once a chaser marker was treated as a message the partition worker waits for it forever: the hang
+			// is then the known consequence, no need to sit out the full bound
+			if ChaserAsMessage(obs.Events()) && time.Until(deadline) > 1500*time.Millisecond {
+				deadline = time.Now().Add(1500 * time.Millisecond)
+			}
+		}
 	}
 	if res.CloseOK {
 		_ = client.Close()
@@ -408,4 +421,20 @@ func Run(sc *Scenario) *Result {
 	res.Requests, res.Logs = cl.Snapshot()
 	res.Wall = time.Since(t0)
 	return res
+}
+
+// ChaserAsMessage reports whether a fin marker ("chaser") was handled as a data message by a broker worker:
+// added to (or rejected by) a produce buffer, or given a terminal event. This is the history shape of the
+// idempotent-path anomaly recorded for C05 (notes/C01.md).
+func ChaserAsMessage(evs []Ev) bool {
+	for _, e := range evs {
+		if e.Msg == nil || e.Msg.Flags&2 == 0 {
+			continue
+		}
+		switch e.Kind {
+		case "bp.add", "bp.waitForSpace", "return.error", "return.success":
+			return true
+		}
+	}
+	return false
 }
